@@ -1036,9 +1036,9 @@ type notif = { n_key : n; n_val : n; n_reason : reason; n_id : n }
 type fixes = { fix_f15 : bool; fix_f16 : bool; fix_f18 : bool;
                fix_f28 : bool; fix_f33 : bool }
 
-(** val impl_fixes : fixes **)
+(** val no_fixes : fixes **)
 
-let impl_fixes =
+let no_fixes =
   { fix_f15 = false; fix_f16 = false; fix_f18 = false; fix_f28 = false;
     fix_f33 = false }
 
@@ -1047,6 +1047,11 @@ let impl_fixes =
 let all_fixes =
   { fix_f15 = true; fix_f16 = true; fix_f18 = true; fix_f28 = true; fix_f33 =
     true }
+
+(** val impl_fixes : fixes **)
+
+let impl_fixes =
+  no_fixes
 
 type cfg = { c_shards : n; c_cap : n; c_ttl : n option; c_tti : n option;
              c_wheel : n; c_tick : n; c_listener : bool; c_track : bool;
